@@ -378,7 +378,18 @@ def ctx_params():
 
 
 def log_params():
-    out = dict(flush='FlushUnknown', fb='false', ca='false')
+    out = dict(flush='FlushUnknown', fb='false', ca='false', lq='LogQueueUnknown')
+    # the queue the workers' log records travel on: a Manager queue (synchronous put) or a plain multiprocessing queue?
+    ri = _find(_src('runners/process.py'), 'ProcessRunner', '__init__')
+    if ri is not None:
+        asg = [n for n in ast.walk(ri) if isinstance(n, ast.Assign) and ast.unparse(n.targets[0]) == 'self.log_queue']
+        handed = 'log_queue=self.log_queue' in ast.unparse(_src('runners/process.py'))
+        if len(asg) == 1 and handed:
+            v = ast.unparse(asg[0].value)
+            if v.startswith('multiprocessing.Manager().Queue('):
+                out['lq'] = 'LogQueueSync'
+            elif v.startswith(('mp_context.Queue(', 'multiprocessing.Queue(', 'self.mp_context.Queue(', 'mp_context.SimpleQueue(', 'multiprocessing.SimpleQueue(')):
+                out['lq'] = 'LogQueueAsync'
     fl = _find(_src('utils.py'), 'LoggerFileProxy', 'flush')
     if fl is not None and len(fl.body) == 1 and isinstance(fl.body[0], ast.If) and ast.unparse(fl.body[0].test) == 'self.bufs':
         body = fl.body[0].body
@@ -539,6 +550,7 @@ def with_probes():
     _settle(lp, 'flush', 'FlushUnknown', probed)
     _settle(lp, 'fb', 'false', probed)
     _settle(lp, 'ca', 'false', probed)
+    _settle(lp, 'lq', 'LogQueueUnknown', probed)
     xp = ctx_params()
     for k in ('serial', 'fork', 'spawn'):
         _settle(xp, k, 'false', probed)
@@ -569,7 +581,8 @@ def render():
               'Definition finally_names_bound_src : bool := %(bound)s.' % ipar]
     lines += ['Definition flush_mode_src : flush_mode := %(flush)s.' % lp,
               'Definition flush_before_result_src : bool := %(fb)s.' % lp,
-              'Definition consume_after_results_src : bool := %(ca)s.' % lp]
+              'Definition consume_after_results_src : bool := %(ca)s.' % lp,
+              'Definition log_queue_src : log_queue_kind := %(lq)s.' % lp]
     lines += ['Definition ctx_sites_src : ctx_sites := {| cf_serial := %(serial)s; cf_fork := %(fork)s; cf_spawn := %(spawn)s |}.' % xp]
     lines += ['Definition start_policy_src : start_policy := %(start)s.' % ep,
               'Definition proc_ctor_src : proc_ctor := %(ctor)s.' % ep,
